@@ -217,7 +217,9 @@ func runWorkers(bin, prop, tier string, seed int64, shards, onlyCase int, extraE
 			defer wg.Done()
 			out := filepath.Join(tmp, fmt.Sprintf("part-%d.json", i))
 			cur := filepath.Join(tmp, fmt.Sprintf("cur-%d", i))
-			wd := filepath.Join(tmp, fmt.Sprintf("wd-%d", i))
+			// the working directory is deeper than any source directory of the harness, so a
+			// path computed relative to a caller's file never resolves to the same file from here
+			wd := filepath.Join(tmp, fmt.Sprintf("wd-%d", i), "a/b/c/d/e/f/g/h/i/j/k/l")
 			os.MkdirAll(wd, 0o755)
 			timeout := "3600"
 			if tier == "thorough" {
